@@ -16,7 +16,11 @@ from praatio.data_classes import textgrid as dtextgrid
 import tiers as T
 import tgops
 
-MODEL_OPS = {"emit", "prep", "parse", "u_num", "u_text", "u_split", "u_fetchtext", "u_fetchrow"}
+
+class SpecError(Exception):
+    pass
+
+MODEL_OPS = {"emit", "prep", "parse", "specread", "dupnames", "u_num", "u_text", "u_split", "u_fetchtext", "u_fetchrow"}
 
 
 def times_of(c):
@@ -42,6 +46,10 @@ def encode(c, enc):
         return f"emit {c['fmt']} {head} {len(table)} {tab}".rstrip()
     if op == "parse":
         return f"parse {enc.s(c['text'])} {enc.b(c['iei'])}"
+    if op == "specread":
+        return f"specread {enc.s(c['text'])}"
+    if op == "dupnames":
+        return "dupnames " + c["mode"] + " " + " ".join([str(len(c["names"]))] + [enc.s(n) for n in c["names"]])
     if op == "u_num":
         return f"u_num {enc.s(c['s'])} {enc.s(c['kw'])} {enc.b(c['neg'])}"
     if op == "u_text":
@@ -93,6 +101,22 @@ def impl(c):
         return T.call(run)
     if op == "parse":
         return impl_parse(c["text"], c["iei"])
+    if op == "specread":
+        import ioops
+
+        def run():
+            try:
+                d = ioops.spec_decode(c["text"])
+            except ioops.SpecError:
+                raise SpecError()
+            return d
+        return T.call(run)
+    if op == "dupnames":
+        # the duplicate-name policy of textgrid.openTextgrid, exercised through the real function on a synthetic file
+        import ioops
+        data = {"lo": 0.0, "hi": 1.0, "tiers": [{"k": "P", "name": n, "lo": 0.0, "hi": 1.0, "es": []} for n in c["names"]]}
+        r = ioops.open_text(ioops.spec_write(data, "short"), True, dup=c["mode"])
+        return ("ok", [t["name"] for t in r[1]["tiers"]]) if r[0] == "ok" else r
     if op == "u_num":
         pat = c["kw"] + r" ?= ?" + ("-?" if c["neg"] else "") + r"([\d.]+(?:[eE][-+]?\d+)?)\s*$"
         m = re.search(pat, c["s"], flags=re.MULTILINE | re.ASCII if c.get("ascii") else re.MULTILINE)
@@ -128,6 +152,15 @@ def render(c, r, enc):
             for e in t["entries"]:
                 out += [str(len(e))] + [enc.s(str(x)) for x in e]
         return "ok " + " ".join(out)
+    if op == "specread":
+        out = [enc.s(repr(v["lo"])), enc.s(repr(v["hi"])), str(len(v["tiers"]))]
+        for t in v["tiers"]:
+            out += [enc.s("IntervalTier" if t["k"] == "I" else "TextTier"), enc.s(t["name"]), enc.s(repr(t["lo"])), enc.s(repr(t["hi"])), str(len(t["es"]))]
+            for e in t["es"]:
+                out += [str(len(e))] + [enc.s(repr(x)) for x in e[:-1]] + [enc.s(e[-1])]
+        return "ok " + " ".join(out)
+    if op == "dupnames":
+        return "ok " + " ".join([str(len(v))] + [enc.s(n) for n in v])
     if op in ("u_num", "u_text"):
         return "ok none" if v is None else "ok some " + enc.s(v)
     if op == "u_split":
@@ -142,8 +175,9 @@ def canon(c, line):
     float()s it; error cases of keyword-bearing files are compared only as 'raises'"""
     if c.get("anyerr") and line.startswith("err"):
         return "err"
-    if c["op"] != "parse" or not line.startswith("ok "):
+    if c["op"] not in ("parse", "specread") or not line.startswith("ok "):
         return line
+    spec = c["op"] == "specread"
     from proto import unhex, Enc
     toks = line.split(" ")[1:]
 
@@ -160,11 +194,14 @@ def canon(c, line):
         p = 3
         for _ in range(int(toks[2])):
             n = int(toks[p + 4])
-            out += [toks[p], toks[p + 1], iof(toks[p + 2]), iof(toks[p + 3]), toks[p + 4]]
+            out += [toks[p], toks[p + 1], (fl if spec else iof)(toks[p + 2]), (fl if spec else iof)(toks[p + 3]), toks[p + 4]]
             p += 5
             for _ in range(n):
                 k = int(toks[p])
-                out += toks[p:p + 1 + k]
+                if spec:   # the spec reader's entry times are numbers on the Python side
+                    out += [toks[p]] + [fl(x) for x in toks[p + 1:p + k]] + [toks[p + k]]
+                else:
+                    out += toks[p:p + 1 + k]
                 p += 1 + k
         return "ok " + " ".join(out)
     except ValueError:
